@@ -136,7 +136,7 @@ CFG = {
                 "KeyPreserving (Init.resAP: the conflict callback returns a record of the address it was given, so the lock of the caller's address protects "
                 "the record the batch writes - the semantic link behind facts_lock_key) holds for the registry write of EVERY Add / Update / Remove call "
                 "that the program tree of EVERY modelled use case can issue, whatever the earlier replies (report, keepalive, probe success/retry/failure, REST "
-                "create/discover, refresh, revival, instance cleanup, listing, removal, both server cleaners); resAP_of_calls - hence Init.resAP for any system whose writers perform such calls. The model is tied to "
+                "create/discover, refresh, revival, instance cleanup, listing, removal, both server cleaners - precisely the eleven programs UC.report, UC.renew, UC.probe, UC.addServer, UC.refresh, UC.revive, cleanInstances, listServers, UC.remove, cleanServers, cleanServers2; the two further client programs of the drivers, Heartbeat6.renewIP [dg6 keepalive] and the prober runner UC.proberRunWith / UC.proberRun [pop client], are NOT in this theorem: for them the same statement is Swat4.C13.usecases_more_key_preserving [Properties/C13.lean, audited under C13; from ProgStable by KeyPres.of_progStable]); resAP_of_calls - hence Init.resAP for any system whose writers perform such calls. The model is tied to "
                 "servers.go / redislock by replaying generated command-level schedules on the real repository under a go-redis "
                 "hook and comparing traces, results and final keyspace.",
         "level_note": "Trusted: Lean kernel; axioms propext, Quot.sound, Classical.choice; Model/Store.lean + Model/StoreMachine.lean "
